@@ -275,6 +275,9 @@ func (w *hookWorld) judge(col *evid.Collector, c hookCase) error {
 				}
 			}
 			switch {
+			case ierr != nil && strings.Contains(ierr.Error(), "context deadline exceeded"):
+				// CPU starvation ran a terminating hook into its timeout
+				col.Inc("hook_cases_starved_no_verdict")
 			case ierr != nil && !anyExpected:
 				col.Class("hooks/%s/%s/refused-other-error/%s", kc, stageName, errClass(ierr))
 				col.Violation("C20:hook-invocation-unexpected-error:"+errClass(ierr), what, replay)
